@@ -161,6 +161,9 @@ def edit(n, rng, path, guaranteed, edits, top=True):
         if not changed and top:
             out.append(("'forced'", "1"))
             changed = True
+        if len(out) > 1 and rng.random() < 0.35:
+            rng.shuffle(out)  # same entries in another insertion order: matched by key, equal entries keep their text
+            edits.add("key_reorder")
         return "{" + ", ".join(f"{k}: {v}" for k, v in out) + "}", changed
     if not changed and top:
         f0, c0 = n.items[0]
